@@ -287,7 +287,7 @@ func c08Scenario(getter bool, maxRe int, unexpired bool, atts []att, garbageLoss
 
 func runC08(r *Run) {
 	installHooks()
-	r.st.Rule = "per-attempt outcome scripts against the real client over TCP: loss by peer drop, then sequences over {dial refused, RECONNECT/AUTH answered ok, unauthenticated, other error status, dropped before answer, silence}, session unexpired/expired, with/without token getter, MaxReconnect 0..3; observed dials, frames per connection (with the presented session id), back-offs and the two callbacks are compared with Model/Recovery.v; direct oracles: after-reconnect exactly once after a success, the client serves a request again, replaced connections are closed, give-up reported once with the hit-max error and no dial afterwards. Scenarios run in parallel. Then, sequentially, with the keepalive an hour away, on TCP and WebSocket: the new connection of a successful recovery is dropped while the after-reconnect callback is still running; a re-dialled connection (and the first connection, inside Dial) is dropped before the client has registered its close callback (dial.before-onclose gate) - service must be re-established each time; the forced lifecycle actions are replayed by Model/Life.v. distinct = distinct request lines"
+	r.st.Rule = "per-attempt outcome scripts against the real client over TCP: loss by peer drop, then sequences over {dial refused, RECONNECT/AUTH answered ok, unauthenticated, other error status, dropped before answer, silence}, session unexpired/expired, with/without token getter, MaxReconnect 0..3; observed dials, frames per connection (with the presented session id), back-offs and the two callbacks are compared with Model/Recovery.v; direct oracles: after-reconnect exactly once after a success, the client serves a request again, replaced connections are closed, give-up reported once with the hit-max error and no dial afterwards. Scenarios run in parallel. Then, sequentially, with the keepalive an hour away, on TCP and WebSocket: the new connection of a successful recovery is dropped while the after-reconnect callback is still running; a re-dialled connection (and the first connection, inside Dial) is dropped before the client has registered its close callback (dial.before-onclose gate) - service must be re-established each time; the forced lifecycle actions are replayed by Model/Life.v. A session that runs out while the recovery is retrying: the attempt after the expiry authenticates afresh. distinct = distinct request lines"
 	type sc struct {
 		getter    bool
 		max       int
